@@ -6,6 +6,8 @@ import EaselModel.Weights.Blosum
 import EaselModel.Weights.PBCounts
 import EaselModel.Weights.PBPerm
 import EaselModel.Weights.GSC
+import EaselModel.Weights.Mx
+import EaselModel.Weights.BlosumPerm
 /-! # C16 — sequence weights, identity filtering and clustering follow their definitions
 
   Theorems about the `ℚ` instance of the executable model `EaselModel.Weights` (the `Float` instance of the same
@@ -68,6 +70,12 @@ theorem singleLinkage_numbering (link : Nat → Nat → Bool) (hsym : ∀ x y, l
     (∀ u, u < n → clusterIndex (singleLinkage link n) u < (singleLinkage link n).length) ∧
     (∀ k, k < (singleLinkage link n).length → ∃ u, u < n ∧ clusterIndex (singleLinkage link n) u = k) :=
   assignment_range hsym n
+
+/-- cluster numbers are NOT in order of first appearance in general (the swap-delete of the available stack reorders it):
+    four vertices, only 0–3 linked: vertex 2 is numbered before vertex 1 -/
+theorem singleLinkage_numbering_not_first_seen :
+    assignment (singleLinkage (fun x y => (x == 0 && y == 3) || (x == 3 && y == 0)) 4) 4 = [0, 2, 1, 0] := by
+  decide +kernel
 
 /-- esl_msacluster_SingleLinkage: components of the graph linking rows with identity ≥ maxid -/
 theorem msaSingleLinkage_components (m : Mode) (maxid : ℚ) (rows : List Row) (u w : Nat)
@@ -246,5 +254,24 @@ theorem gsc_identical_rows_fails_at :
     gsc (α := ℚ) Mode.text
       [[45,45,68,69,45,45,45,45], [65,67,68,69,70,71,72,73], [45,45,45,69,70,45,45,45], [45,45,45,69,70,71,72,45],
        [65,67,68,69,70,71,72,73]] = [5/4, 5/4, 5/6, 5/6, 5/6] := by decide +kernel
+
+/-- BLOSUM: identical rows ⇒ identical weights (rows with the same content lie in the same cluster or in two singletons) -/
+theorem blosum_identical_rows (m : Mode) (maxid : ℚ) (rows : List Row) (i j : Nat) (hi : i < rows.length)
+    (hj : j < rows.length) (h : rows[i] = rows[j])
+    (hi' : i < (blosum m maxid rows).length) (hj' : j < (blosum m maxid rows).length) :
+    (blosum m maxid rows)[i] = (blosum m maxid rows)[j] :=
+  blosum_eq_of_rows_eq m maxid rows i j hi hj h hi' hj'
+
+/-- esl_dst_{C,X}PairIdMx: 1 on the diagonal, the pairwise identity elsewhere, symmetric -/
+theorem pairIdMx_spec (m : Mode) (rows : List Row) (i j : Nat) (hi : i < rows.length) (hj : j < rows.length) :
+    (((pairIdMx (α := ℚ) m rows).getD i []).getD j 0 =
+      if i = j then 1 else pid (α := ℚ) m (rows.getD i []) (rows.getD j [])) ∧
+    ((pairIdMx (α := ℚ) m rows).getD i []).getD j 0 = ((pairIdMx (α := ℚ) m rows).getD j []).getD i 0 :=
+  ⟨pairIdMx_entry m rows i j hi hj, pairIdMx_symm m rows i j hi hj⟩
+
+/-- relisting the rows permutes the BLOSUM weights accordingly: one weight function of the row content serves both orders -/
+theorem blosum_relisting (m : Mode) (maxid : ℚ) {rows rows' : List Row} (hp : rows.Perm rows') (hne : rows ≠ []) :
+    ∃ f : Row → ℚ, blosum m maxid rows = rows.map f ∧ blosum m maxid rows' = rows'.map f :=
+  blosum_perm m maxid hp hne
 
 end EaselModel.Props.C16
